@@ -734,3 +734,38 @@ def timing_probe(binary, hooks):
         else:
             out.append(("ok", (P, Q, round(first_ping, 2), round(drop, 2))))
     return out
+
+
+# ------------------------------------------------------------------ predefined users are registered (+r) users
+def account_modes(binary, hooks):
+    """"predefined users": whoever logs in to a [[users]] account - with or without a mask on it - is a registered
+    user (+r in 221 and MODE, 307 in WHOIS, may drop and take back +r); everybody else is not"""
+    H = sut.password_hash(binary, "accpw")
+    cfg = dict(users=[{"name": "acc1", "nick": "a1", "password": H},
+                      {"name": "acc2", "nick": "a2", "password": H, "mask": "*!*@127.0.0.1"},
+                      {"name": "acc3", "nick": "a3", "mask": "n3!*@*"},
+                      {"name": "acc4", "nick": "a4"}])
+    out = []
+    with sut.Server(binary, cfg, hooks=hooks) as srv:
+        for nick, user, pw, want_r in (("n1", "acc1", "accpw", True), ("n2", "acc2", "accpw", True), ("n3", "acc3", None, True),
+                                       ("n4", "acc4", None, True), ("n5", "nobody", None, False)):
+            c = wire.Client(srv.port, timeout=6.0)
+            burst = c.register(nick, user, password=pw)
+            m221 = [m.params[1] for m in burst if m.verb == "221" and len(m.params) > 1]
+            out.append(("%s: 221 %s +r" % (user, "shows" if want_r else "does not show"),
+                        bool(m221) and (("r" in m221[0]) == want_r)))
+            c.send("WHOIS " + nick)
+            wl = c.read_until(lambda m: m.verb == "318", 5.0)
+            out.append(("%s: WHOIS %s 307" % (user, "has" if want_r else "has no"), any(m.verb == "307" for m in wl) == want_r))
+            c.send("MODE %s -r" % nick)
+            c.ping("a")
+            c.send("MODE %s +r" % nick)
+            l2 = c.ping("b")
+            c.send("MODE " + nick)
+            l3 = c.ping("c")
+            now_r = any(m.verb == "221" and "r" in (m.params[1] if len(m.params) > 1 else "") for m in l3)
+            out.append(("%s: +r %s be taken back after -r" % (user, "can" if want_r else "cannot"), now_r == want_r))
+            if not want_r:
+                out.append(("%s: MODE +r refused with 481" % user, any(m.verb == "481" for m in l2)))
+            c.close()
+    return out
